@@ -147,7 +147,7 @@ def main():
         ],
         "checks": checks,
         "not_applicable": na,
-        "notes": "All checks: ./check <ID> quick|thorough (exit 0 held, 1 VIOLATION, 2 harness problem/inconclusive). VERIF_SEED selects the PRNG stream; VERIF_HANG_SECS (default 600) is the per-case watchdog (exit 2). Known findings: /verif/known_findings.json. Sensitivity material: /verif/seeded (240 sub-agent changes with demonstrations and meta.json), /verif/mutants (patches; mutants/iso.sh runs one without touching /repo).",
+        "notes": "All checks: ./check <ID> quick|thorough (exit 0 held, 1 VIOLATION, 2 harness problem/inconclusive). VERIF_SEED selects the PRNG stream; VERIF_HANG_SECS (default 600) is the per-case watchdog (exit 2). Known findings: /verif/known_findings.json. Sensitivity material: /verif/seeded (325 sub-agent changes with demonstrations and meta.json), /verif/mutants (patches; mutants/iso.sh runs one without touching /repo).",
     }
     with open(os.path.join(ROOT, "MANIFEST.json"), "w") as f:
         json.dump(manifest, f, indent=1)
